@@ -560,6 +560,16 @@ func init() {
 		"(*math/big.Float).IsInt": func(fr *frame, args []value) value { return bigF(args[0]).IsInt() },
 
 		// --- byte/strings assembly-backed helpers: concrete natively, symbolic by loops ---
+		"strings.Compare":                  extStringCompare,
+		"internal/bytealg.CompareString":   extStringCompare,
+		"internal/bytealg.MakeNoZero": func(fr *frame, args []value) value {
+			n := int(asInt64(args[0]))
+			out := make([]value, n)
+			for i := range out {
+				out[i] = uint8(0)
+			}
+			return out
+		},
 		"internal/bytealg.IndexByteString": func(fr *frame, args []value) value {
 			return indexByteValue(toSString(args[0]), args[1])
 		},
@@ -622,6 +632,21 @@ func init() {
 
 // removedExternals: entries of the stock externals table that symgo does not use (the real SSA body runs instead).
 var removedExternals = map[string]bool{}
+
+// extStringCompare: -1, 0, +1 by lexicographic byte order; symbolic bytes give a symbolic int (no fork).
+func extStringCompare(fr *frame, args []value) value {
+	a, aok := args[0].(string)
+	b, bok := args[1].(string)
+	if aok && bok {
+		return strings.Compare(a, b)
+	}
+	lt := truth(symStringBinop(token.LSS, args[0], args[1]))
+	eq := truth(symStringBinop(token.EQL, args[0], args[1]))
+	m1 := termOf(int(-1), types.Int)
+	z := termOf(int(0), types.Int)
+	p1 := termOf(int(1), types.Int)
+	return mkSym(types.Int, smt.Ite(lt, m1, smt.Ite(eq, z, p1)))
+}
 
 type nativeObj struct{ o interface{} }
 
